@@ -147,7 +147,7 @@ Section Loop2.
     | Some (_, zp) =>
       let e := {| e_path := path ++ [c]; e_a := bp; e_z := zp; e_root := plug es1;
                   e_nx := nx1; e_rk := rk1 |} in
-      let '(zp', nx2, rk2, evs) := body_run bd inner path plug c bp es1 i zp nx1 rk1 in
+      let '(zp', nx2, rk2, evs) := body_run n dz bd inner lvl path plug c bp es1 i zp nx1 rk1 in
       let es2 := set_nth i (c, zp') es1 in
       let remove := should_remove dz (negb existing) zp' in
       let '(es3, rk3) := finish n lvl c remove es2 rk2 in
@@ -220,7 +220,7 @@ Section Loop2.
       as [[es1 nx1] rk1] eqn:Hcr.
     cbn [fst] in Hloc. destruct Hloc as [Hs1 [Hb1 [zp Hzp]]].
     rewrite Hzp.
-    destruct (body_run bd inner path plug c bp es1 i zp nx1 rk1) as [[[zp' nx2] rk2] evs] eqn:Hbody.
+    destruct (body_run n dz bd inner lvl path plug c bp es1 i zp nx1 rk1) as [[[zp' nx2] rk2] evs] eqn:Hbody.
     set (rm := should_remove dz (negb (coord_exists c (map fst es) i)) zp').
     assert (Hm2 : map fst (set_nth i (c, zp') es1) = map fst es1)
       by (apply (map_fst_set_nth i c zp' zp es1 Hzp)).
